@@ -450,6 +450,22 @@ Fixpoint ops_ok (ops : list op) (st : disk * rfilter) : bool :=
   | o :: r => op_ok (fst st) (snd st) o && ops_ok r (step st o)
   end.
 
+(* the purely environmental part of op_ok (no clause about the in-memory filter) *)
+Definition op_env (d : disk) (o : op) : bool :=
+  match o with
+  | Revert => match d_height d with Some h => (h =? 0) || block_full d (h - 1) | None => true end
+  | Prune e => match d_height d with Some h => e <=? h | None => true end
+  | _ => true
+  end.
+
+Fixpoint ops_env (ops : list op) (st : disk * rfilter) : bool :=
+  match ops with
+  | [] => true
+  | o :: r => op_env (fst st) o && ops_env r (step st o)
+  end.
+
+Definition is_restart (o : op) : bool := match o with Restart _ => true | _ => false end.
+
 (* the filter can take block h+1 *)
 Definition rf_ready (n : N) (rf : rfilter) : bool :=
   negb (rf_err rf) && (rf_from rf <=? n) && (n <=? rf_to rf).
